@@ -179,6 +179,14 @@ func (rw *Rewriter) Visit(node sql.Node) (w sql.Visitor, n sql.Node, err error) 
 				return nil, nil, err
 			}
 		}
+	case sql.SelectExpr:
+		// sql.Walk does not descend into a SELECT used as an expression, e.g.
+		// (SELECT random()), so visit it here.
+		if n.SelectStatement != nil {
+			if _, err := sql.Walk(rw, n.SelectStatement); err != nil {
+				return nil, nil, err
+			}
+		}
 	case *sql.Null:
 		// sql.Walk does not descend into the operand of IS NULL / NOT NULL, so
 		// visit it here.
